@@ -32,7 +32,7 @@ class FuncSpec(dict):
 
 
 def gen_function(rng, name="f_target", kind=None, style=None, doc_mode=None, order=None, with_body=False, max_pos=4, max_kw=3,
-                 force_partial_defaults=None, p_default_sentence=0.0, p_no_params=None, p_two_announcements=0.0):
+                 force_partial_defaults=None, p_default_sentence=0.0, p_no_params=None, p_two_announcements=0.0, p_over_documented=0.0):
     """Returns FuncSpec(src=..., params=[...], ...).  params: list of dicts with
     name, kind(pos|kwonly|kwargs), default_src|None, default_class, annotation|None,
     documented(bool), doc(str|None), doc_typ(str|None)."""
@@ -101,6 +101,12 @@ def gen_function(rng, name="f_target", kind=None, style=None, doc_mode=None, ord
     if order == "out" and len(docd) > 1:
         docd = docd[:]
         rng.shuffle(docd)
+    over_documented = []
+    if p_over_documented and rng.random() < p_over_documented:
+        # the docstring also documents names that are not in the signature (options forwarded through **kwargs, attributes)
+        over_documented = rng.sample(["sslmode", "application_name", "keepalives", "zq_retries", "zq_timeout", "zq_pool_size"], rng.randint(2, 4))
+        docd = docd + [{"name": n, "doc": "the zq_{} option that is forwarded".format(n), "doc_typ": "int" if style in ("numpydoc", "google") else None}
+                       for n in over_documented]
     ret_ann = rng.choice([None, None, "int", "np.ndarray", "Optional[str]"])
     has_ret_doc = doc_mode != "none" and rng.random() < 0.5
     ret_expr = rng.choice([None, "zq_result", "(alpha_zq, 2)", "5", "0", "False", "''", "0.0", "None", "", "-1", "'text'"]) if with_body or rng.random() < 0.4 else None
@@ -133,7 +139,7 @@ def gen_function(rng, name="f_target", kind=None, style=None, doc_mode=None, ord
     return FuncSpec(src="\n".join(lines) + "\n", params=params, kind=kind, style=style, doc_mode=doc_mode, order=order,
                     name=name, has_doc=doc is not None, ret_ann=ret_ann, ret_expr=ret_expr, body=body,
                     documented_order=[p["name"] for p in docd], has_ret_doc=has_ret_doc,
-                    ret_doc_states_default=ret_doc_states_default and doc is not None)
+                    ret_doc_states_default=ret_doc_states_default and doc is not None, over_documented=over_documented)
 
 
 def _mk_param(rng, name, kind, has_def):
